@@ -38,4 +38,8 @@ def expectedPragmaLines : List String := [
 
 theorem pragma_lines_match : Gen.ompPragmaLines = expectedPragmaLines := by decide
 
+/-- no scalar declared outside an `omp parallel for` body is assigned inside it without being private: every iteration of the
+distance-matrix loop writes only its own cell `dm[i][j]` (the footprint assumed by `dist_prog_safe`) -/
+theorem no_shared_writes_in_parallel_for : Gen.sharedWritesInParallelFor = [] := by decide
+
 end Kalign.C02
